@@ -77,7 +77,7 @@ def run(ctx):
 def _facts_at_ok(fn):
     out = []
     for bb, e in H.ok_exits(fn):
-        out.append((bb, A.cmp_facts(fn, bb)))
+        out.append((bb, H.facts_at(fn, bb)))
     return out
 
 
@@ -178,10 +178,11 @@ def _range(ctx, prog):
             and H.must_pass(f, 0, sorted(f.ok_exit_blocks()), [c.bb])
     ctx.ob("range:validate_one-merges", ok,
            "validate_one calls merge_range(Some(oracle_slot), ts, ts) with ts = oracle_ts - timestamp_adjustment on every Ok path: %s" % ok, where=f.where())
-    ws = {w["path"]: str(w["rv"]) for w in H.state_stores(mr)}
-    ok = ws.get("self.min_oracle_ts") in ("Ord::min(self.min_oracle_ts, min_oracle_ts)", "Ord::min(min_oracle_ts, self.min_oracle_ts)") \
-        and ws.get("self.max_oracle_ts") in ("Ord::max(self.max_oracle_ts, max_oracle_ts)", "Ord::max(max_oracle_ts, self.max_oracle_ts)")
-    ctx.ob("range:merge_range", ok, "merge_range: min_oracle_ts := %s; max_oracle_ts := %s" % (ws.get("self.min_oracle_ts"), ws.get("self.max_oracle_ts")), where=mr.where())
+    ok_min, d_min = H.extremum_update(mr, "self.min_oracle_ts", "min_oracle_ts", "min")
+    ok_max, d_max = H.extremum_update(mr, "self.max_oracle_ts", "max_oracle_ts", "max")
+    ctx.ob("range:merge_range", ok_min and ok_max,
+           "merge_range leaves min_oracle_ts = min(old, arg) on every path [%s] and max_oracle_ts = max(old, arg) [%s] "
+           "(std min/max call or the equivalent compare-and-assign)" % (d_min, d_max), where=mr.where())
     RANGE = r"^Result::map_err\(TryInto::try_into\(Option::ok_or_else\(i64::checked_sub\(self\.max_oracle_ts, self\.min_oracle_ts\), closure<[^>]*>\)\?\), closure<[^>]*>\)\?$"
     oks = _facts_at_ok(fin)
     ok = bool(oks) and all(_has(fs, ">=", r"^self\.max_oracle_timestamp_range$", RANGE) for _, fs in oks)
@@ -355,13 +356,14 @@ def _cleared(ctx, prog):
     rets = H.ret_blocks(w)
     a = H.must_pass(w, s.target, rets, [c.bb for c in cls]) and all(str(c.arg_expr(0)) == "self" for c in cls) and str(s.arg_expr(0)) == "self"
     ctx.ob("cleared:always", a, "from the return of set_prices_from_remaining_accounts every path to the function's return passes clear_all_prices(self) (%d sites): %s" % (len(cls), a), where=w.where())
-    b = H.must_pass(w, k.target, rets, [c.bb for c in cls if w.dominates(k.bb, c.bb)]) and any(w.dominates(k.bb, c.bb) for c in cls)
-    ctx.ob("cleared:after-callback", b, "a clear_all_prices call follows the callback on every path: %s" % b, where=w.where())
+    after_cb = [c.bb for c in cls if c.bb in w.reachable_from(k.target)]
+    b = bool(after_cb) and H.must_pass(w, k.target, rets, after_cb)
+    ctx.ob("cleared:after-callback", b, "every path from the callback's return to the function's return passes a clear_all_prices call: %s" % b, where=w.where())
     c_ = H.discr_guarded(w, k.bb, r"^Oracle::set_prices_from_remaining_accounts\(self, ", {0})
     ctx.ob("cleared:callback-on-ok", c_, "the callback runs only on the Ok edge of set_prices_from_remaining_accounts: %s" % c_, where=w.where())
     ms = [m for m in H.mutations(w, r"^self\b|\bself\b") if m["kind"] == "call" and re.search(r"\(&mut self", m["desc"])]
     early = [m["desc"] for m in ms if not (m["cs"] is s or w.dominates(s.bb, m["bb"]))]
-    ctx.ob("cleared:nothing-before", not early and len(ms) >= 3, "no call mutates the oracle before set_prices_from_remaining_accounts (early exits precede any price write): %s" % early, where=w.where())
+    ctx.ob("cleared:nothing-before", not early and len(ms) >= 2 and any(m["cs"] is s for m in ms), "no call mutates the oracle before set_prices_from_remaining_accounts (early exits precede any price write): %s" % early, where=w.where())
     pcs = [c for c in cl.calls if c.short == "PriceMap::clear" and str(c.arg_expr(0)) == "self.primary"]
     fl = [c for c in cl.calls if c.short == "OracleFlagContainer::set_flag" and [str(c.arg_expr(i)) for i in range(3)] == ["self.flags", "OracleFlag::Cleared{}", "true"]]
     d = len(pcs) == 1 and len(fl) == 1 and not cl.err_exit_blocks()
@@ -396,19 +398,29 @@ def _time_window(ctx, prog):
     ok = bool(fs) and all(_has(f_, ">=", r"^self\.max_oracle_ts$", r"^self\.min_oracle_ts$") for _, f_ in fs)
     ctx.ob("time-window:validate_time:range-sane", ok, "validate_time Ok => self.max_oracle_ts >= self.min_oracle_ts: %s" % ok, where=vt.where())
     T = r"gmsol_store::states::oracle::time::ValidateOracleTimeExt::"
-    for nm, op, a_re, b_re in (("validate_min_oracle_ts", ">=", r"^oracle\.min_oracle_ts$", r"^ValidateOracleTime::oracle_updated_after\(self\)\?@Some\.0$"),
-                               ("validate_max_oracle_ts", ">=", r"^ValidateOracleTime::oracle_updated_before\(self\)\?@Some\.0$", r"^oracle\.max_oracle_ts$"),
-                               ("validate_min_oracle_slot", ">=", r"^Oracle::min_oracle_slot\(oracle\)@Some\.0$", r"^ValidateOracleTime::oracle_updated_after_slot\(self\)\?@Some\.0$")):
+    # violating relation per check: Ok must be unreachable on the edge where it holds, and — once the bound is present —
+    # reachable only through the edge where it does not hold
+    for nm, getter, a_re, b_re in (("validate_min_oracle_ts", "oracle_updated_after", r"^oracle\.min_oracle_ts$", r"^ValidateOracleTime::oracle_updated_after\(self\)\?@Some\.0$"),
+                                   ("validate_max_oracle_ts", "oracle_updated_before", r"^ValidateOracleTime::oracle_updated_before\(self\)\?@Some\.0$", r"^oracle\.max_oracle_ts$"),
+                                   ("validate_min_oracle_slot", "oracle_updated_after_slot", r"^Oracle::min_oracle_slot\(oracle\)@Some\.0$", r"^ValidateOracleTime::oracle_updated_after_slot\(self\)\?@Some\.0$")):
         g = ctx.fn(T + nm)
         if g is None:
             continue
-        # Ok exits on the `Some(bound)` edge carry the comparison fact; the `None` bound edge is unconstrained
-        good = True
-        seen = 0
-        for bb, e in H.ok_exits(g):
-            if H.discr_guarded(g, bb, r"^ValidateOracleTime::oracle_updated_(after|before|after_slot)\(self\)\?$", {1}):
-                seen += 1
-                good = good and _has(A.cmp_facts(g, bb), op, a_re, b_re)
+        oks_g = sorted(g.ok_exit_blocks())
+        viol = H.cmp_switches(g, "<", a_re, b_re)          # `a < b` is the violation in all three checks
+        bound = H.discr_switches(g, r"^ValidateOracleTime::%s\(self\)\?$" % getter)
+        good = len(viol) == 1 and len(bound) >= 1 and bool(oks_g)
+        if good:
+            v = viol[0]
+            good = not any(b_ in g.reachable_from(v["holds"]) for b_ in oks_g) and v["holds"] != v["fails"]
+            for sw in bound:
+                some_t = H.variant_target(g, sw, 1)
+                r = H.reach_avoiding_edges(g, some_t, [(v["bb"], v["fails"])])
+                # with the bound present, Ok needs the comparison's pass edge (a `Some(_)` arm shared with `None` is fine:
+                # it is entered from the Some edge only through the failed guard, i.e. the pass edge)
+                good = good and not any(b_ in r for b_ in oks_g) and v["bb"] in g.reachable_from(some_t)
         n += 1
-        ctx.ob("time-window:" + nm, good and seen >= 1, "%s: Ok with a bound present implies the comparison `%s %s %s` (%d such exits): %s" % (nm, a_re, op, b_re, seen, good), where=g.where())
+        ctx.ob("time-window:" + nm, good,
+               "%s: with a bound present Ok is reachable only through the edge where NOT(%s < %s) and never from the edge where it holds (%d comparison(s), %d bound test(s)): %s" % (
+                   nm, a_re, b_re, len(viol), len(bound), good), where=g.where())
     ctx.floor("time-window", n + 1, 7)
